@@ -48,4 +48,15 @@ def harnesses():
         out.append(H("c04_closure_narrow_%d" % b, "C04", "c04::closure_narrow::<%d>" % b, unwind=4, tier="quick",
                      inst="Uint<%d,1>" % b, domain="every operand pair of the width", free_bits=2 * b, timeout=900,
                      fns=["inv_ring", "wrapping_mul", "saturating_mul", "overflowing_mul"]))
+    for b in [7, 8, 65, 127]:
+        l, nb = nlimbs(b), nbytes(b)
+        out.append(H("c04_closure_decoders_%d" % b, "C04", "c04::closure_decoders::<%d,%d,%d>" % (b, l, nb + 1),
+                     unwind=max(nb + 4, 8), tier="quick" if b in (8, 65) else "thorough", inst="Uint<%d,%d>" % (b, l),
+                     stubs=[("alloc::fmt::format", "stubs::format_stub")], timeout=1800,
+                     domain="u64 digit strings of symbolic length 0..=3 in base 3/10/1000/2^32 (LE and BE), ASCII strings of "
+                            "symbolic length 0..=3 in radix 10/36, byte slices of symbolic length 0..=BYTES+1, 2-limb slices",
+                     free_bits=64 * 3 + 21 + 8 * (nb + 1) + 12,
+                     fns=["from_base_be", "from_base_le", "from_str_radix", "try_from_be_slice", "try_from_le_slice",
+                          "checked_from_limbs_slice"],
+                     covers_required=["accepts-digits", "accepts-bytes"]))
     return out
